@@ -376,7 +376,24 @@ func init() {
 
 	// ---------------- encoding/json
 	intrinsics["encoding/json.Marshal"] = func(fr *frame, args []value) value {
-		return tuple{fr.jsonMarshal(args[0]), iface{}}
+		var res value
+		var encErr error
+		func() {
+			defer func() {
+				if r := recover(); r != nil {
+					if e, ok := r.(jsonEncErr); ok {
+						encErr = e.err
+						return
+					}
+					panic(r)
+				}
+			}()
+			res = fr.jsonMarshal(args[0])
+		}()
+		if encErr != nil {
+			return tuple{[]value(nil), fr.errVal(encErr)}
+		}
+		return tuple{res, iface{}}
 	}
 	intrinsics["encoding/json.Unmarshal"] = func(fr *frame, args []value) value {
 		return fr.jsonUnmarshal(args[0], args[1])
